@@ -2116,7 +2116,8 @@ class IndexSignature(BaseSignature):
                 ((not self.name and not other.name) or
                  self.name == other.name) and
                 ((not self.expressions and not other.expressions) or
-                 self.expressions == other.expressions) and
+                 list(self.expressions or []) ==
+                 list(other.expressions or [])) and
                 self.fields == other.fields and
                 dict.__eq__(self.attrs or {}, other.attrs or {}))
 
@@ -2129,7 +2130,10 @@ class IndexSignature(BaseSignature):
             int:
             The hash of the signature.
         """
-        return hash(repr(self))
+        # Expressions may be a tuple (from a model) or a list (loaded from
+        # JSON). Both must hash the same, since they compare equal.
+        return hash(repr((self.name, self.fields,
+                          list(self.expressions or []), self.attrs)))
 
     def __repr__(self):
         """Return a string representation of the signature.
